@@ -164,6 +164,10 @@ def run(ctx):
     cells = [((sorted(fields)[0], 'None'),), ((sorted(fields)[0], ('Some', STAR)),)] if fields else [()]
     res = run_jobs(F, [{'key': 'client', 'entry': poll.id, 'aut': ('sink',), 'acc': acc, 'cells': cells}])
     judge(ctx, res['client'], poll, 'C04.cascade', 'client dispatch poll (cancel leaves the client)')
+    # the cascade needs the Cancel of an abandoned nested call to reach the wire: an id taken from the cancellation queue whose entry was removed is written in the
+    # same activation, it is not lost at a Pending early return (the rule of C03.owed, stated here for the client end of every hop)
+    from .C03 import owed_rule
+    owed_rule(ctx, 'C04.owed', poll)
     # a finished execution never queues its id for clean-up: whether the handler completed or was aborted by a Cancel, the guard is disarmed on every path, so
     # cancelling a request cannot later un-track a different request that reuses its id
     from .server_common import guard_always_disarmed
